@@ -23,6 +23,21 @@ theorem days_mul (x : Int) : AseTime.days (x * 86400000000) = x := by
   have := days_split x 0 (by omega)
   simpa using this
 
+/-- `floorDays` of a duration `a days + u µs`, `0 ≤ u < 1 day`, is `a` — before the epoch as well -/
+theorem floorDays_split (a : Int) (u : Nat) (hu : u < 86400000000) :
+    floorDays (a * 86400000000 + u) = a := by
+  simp only [floorDays, days_split a u hu, Types.day]
+  by_cases h : 0 ≤ a * 86400000000 + (u : Int)
+  · rw [if_neg (by omega), if_pos (by omega)]
+  · have hm : Int.tmod (a * 86400000000 + (u : Int)) 86400000000 = -(Int.tmod (-(a * 86400000000 + (u : Int))) 86400000000) := by
+      have := Int.neg_tmod (-(a * 86400000000 + (u : Int))) 86400000000
+      rw [Int.neg_neg] at this; exact this
+    rw [hm, Int.tmod_eq_emod_of_nonneg (by omega)]
+    by_cases hu0 : u = 0
+    · subst hu0
+      rw [if_neg (by omega), if_pos (by omega)]
+    · rw [if_pos (by omega), if_neg (by omega)]; omega
+
 /-- `MillisecondToFractionalSecond` on a non-negative microsecond count: nearest tick, ties up -/
 theorem ms2f_nonneg (s : Int) (h : 0 ≤ s) : millisecondToFractionalSecond s = (3 * s + 5000) / 10000 := by
   simp only [millisecondToFractionalSecond, roundHalfAway, Types.millisecond]
@@ -47,18 +62,16 @@ theorem us_lt (tm : Time) (h : tm.ns < nsPerDay) : tm.ns / 1000 < 86400000000 :=
 
 /-! ### DATE -/
 
-theorem enc_date (tm : Time) (h : tm.ns < nsPerDay) (hy : -4000 ≤ tm.year)
-    (hd : 693595 ≤ tm.day ∨ tm.ns / 1000 = 0) :
+theorem enc_date (tm : Time) (h : tm.ns < nsPerDay) (hy : -4000 ≤ tm.year) :
     dateBytes tm 4 = .ok (leEncode 4 (toU 32 (tm.day - 693595))) := by
   have e : mkBytes 4 = some (zeros 4) := mkBytes_nat 4
-  simp only [dateBytes, e, dfd_diff tm h hy, days_split _ _ (us_lt tm h), putLE_zeros, ofOpt]
-  rw [if_pos (by omega)]
+  simp only [dateBytes, e, dfd_diff tm h hy, floorDays_split _ _ (us_lt tm h), putLE_zeros, ofOpt]
 
 theorem dec_date (x : Int) (hx : -100000000 < x ∧ x < 100000000) :
     dateArm (leEncode 4 (toU 32 x)) = .ok (.time ⟨693595 + x, 0⟩) := by
   have hg := getLE_leEncode 4 (toU 32 x) []
   rw [List.append_nil] at hg
-  simp only [dateArm, leEncode_length, hg, toI32_toU x (by omega), Types.day,
+  simp only [dateArm, leEncode_length, ne_eq, not_true_eq_false, hg, toI32_toU x (by omega), Types.day,
     wrap64_id (x * 86400000000) (by omega), days_mul, epoch1900_eq, Time.addDays]
   simp
 
@@ -106,32 +119,14 @@ theorem dec_bigtime (u : Nat) (hu : u < 86400000000) :
 
 /-! ### DATETIME / SHORTDATE -/
 
-theorem enc_datetime (tm : Time) (h : tm.ns < nsPerDay) (hy : -4000 ≤ tm.year)
-    (hd : 693595 ≤ tm.day ∨ tm.ns / 1000 = 0) :
+theorem enc_datetime (tm : Time) (h : tm.ns < nsPerDay) (hy : -4000 ≤ tm.year) :
     dtBytes tm 8 = .ok (leEncode 4 (toU 32 (tm.day - 693595)) ++
       leEncode 4 (toU 32 ((3 * ((tm.ns / 1000 : Nat) : Int) + 5000) / 10000))) := by
   have e : mkBytes 8 = some (zeros 8) := mkBytes_nat 8
-  simp only [dtBytes, e, dateTimeBytes, dfd_diff tm h hy, days_split _ _ (us_lt tm h), microseconds, Types.day]
-  have hc : 0 ≤ tm.day - 693595 ∨ tm.ns / 1000 = 0 := by omega
+  simp only [dtBytes, e, dateTimeBytes, dfd_diff tm h hy, floorDays_split _ _ (us_lt tm h), microseconds, Types.day]
   have e3 : (tm.day - 693595) * 86400000000 + ((tm.ns / 1000 : Nat) : Int) - (tm.day - 693595) * 86400000000
       = ((tm.ns / 1000 : Nat) : Int) := by omega
-  simp only [if_pos hc, e3, ms2f_nonneg _ (Int.natCast_nonneg _)]
-  simp
-
-/-- the 8-byte layout that `Bytes` produces before 1900-01-01 when the time of day is not zero: the day
-count is truncated toward zero and the (negative) remainder is cast to `uint32` -/
-theorem enc_datetime_pre1900 (tm : Time) (h : tm.ns < nsPerDay) (hy : -4000 ≤ tm.year)
-    (hd : tm.day < 693595) (hn : tm.ns / 1000 ≠ 0) :
-    dtBytes tm 8 = .ok (leEncode 4 (toU 32 (tm.day - 693595 + 1)) ++
-      leEncode 4 (toU 32 (-((3 * (86400000000 - ((tm.ns / 1000 : Nat) : Int)) + 5000) / 10000)))) := by
-  have e : mkBytes 8 = some (zeros 8) := mkBytes_nat 8
-  have hu := us_lt tm h
-  simp only [dtBytes, e, dateTimeBytes, dfd_diff tm h hy, days_split _ _ hu, microseconds, Types.day]
-  have hc : ¬ (0 ≤ tm.day - 693595 ∨ tm.ns / 1000 = 0) := by omega
-  have e3 : (tm.day - 693595) * 86400000000 + ((tm.ns / 1000 : Nat) : Int) - (tm.day - 693595 + 1) * 86400000000
-      = -(86400000000 - ((tm.ns / 1000 : Nat) : Int)) := by omega
-  have hneg : -(86400000000 - ((tm.ns / 1000 : Nat) : Int)) < 0 := by omega
-  simp only [if_neg hc, e3, ms2f_neg _ hneg, Int.neg_neg]
+  simp only [e3, ms2f_nonneg _ (Int.natCast_nonneg _)]
   simp
 
 theorem dec_datetime (x : Int) (k : Nat) (hx : -100000000 < x ∧ x < 100000000) (hk : k < 4294967296) :
@@ -149,17 +144,16 @@ theorem dec_datetime (x : Int) (k : Nat) (hx : -100000000 < x ∧ x < 100000000)
   have e5 : (10 * ((k : Nat) : Int) / 3 * 1000) * 1000 = ((10 * k / 3 * 1000000 : Nat) : Int) := by omega
   rw [e5]
 
-theorem enc_shortdate (tm : Time) (h : tm.ns < nsPerDay) (hy : -4000 ≤ tm.year) (hd : 693595 ≤ tm.day) :
+theorem enc_shortdate (tm : Time) (h : tm.ns < nsPerDay) (hy : -4000 ≤ tm.year) :
     dtBytes tm 4 = .ok (leEncode 2 (toU 16 (tm.day - 693595)) ++
       leEncode 2 (toU 16 ((tm.ns / 60000000000 : Nat) : Int))) := by
   have e : mkBytes 4 = some (zeros 4) := mkBytes_nat 4
-  simp only [dtBytes, e, dateTimeBytes, dfd_diff tm h hy, days_split _ _ (us_lt tm h), microseconds, Types.day]
-  have hc : 0 ≤ tm.day - 693595 ∨ tm.ns / 1000 = 0 := by omega
+  simp only [dtBytes, e, dateTimeBytes, dfd_diff tm h hy, floorDays_split _ _ (us_lt tm h), microseconds, Types.day]
   have e3 : (tm.day - 693595) * 86400000000 + ((tm.ns / 1000 : Nat) : Int) - (tm.day - 693595) * 86400000000
       = ((tm.ns / 1000 : Nat) : Int) := by omega
   have e4 : minutes ((tm.ns / 1000 : Nat) : Int) = ((tm.ns / 60000000000 : Nat) : Int) := by
     simp only [minutes, Types.minute, tdiv_pos]; rw [if_pos (by omega)]; omega
-  simp only [if_pos hc, e3, e4]
+  simp only [e3, e4]
   simp
 
 theorem dec_shortdate (d m : Nat) (hd : d < 65536) (hm : m < 65536) :
@@ -198,7 +192,7 @@ theorem dec_bigdatetime (D : Int) (us : Nat) (hD : -366 ≤ D ∧ D < 100000000)
   have hw : wrap64 ((((D + 366) * 86400000000 + (us : Int)).toNat : Nat) : Int) = (D + 366) * 86400000000 + us := by
     simp only [wrap64]; omega
   rw [goValue_BIGDATETIMEN]
-  rw [leEncode_length, if_neg (by decide), hg, hm]
+  rw [leEncode_length, if_neg (by decide), if_neg (by decide), hg, hm]
   show VOut.ok (.time _) = _
   rw [hw]
   have hc : 0 ≤ D + 366 ∨ us = 0 := by omega
